@@ -456,15 +456,13 @@ func c10one(c C10Case, cc c10conc, ev map[string]interface{}) {
 		for _, it := range c.Items {
 			p := cc.objPath(c.Srv, it.Href)
 			hrefs = append(hrefs, p)
-			want = append(want, objRow{"href": it.Href, "out": it.Out})
+			// "403w" / "404w": the backend's status arrives inside a wrapped error; the answer is the same status
+			want = append(want, objRow{"href": it.Href, "out": strings.TrimSuffix(it.Out, "w")})
 			switch it.Out {
 			case "ok":
 				put(Obj{Path: it.Href, Etag: "e1", Mtime: "m1", Data: "d1"})
-			case "403", "500":
-				code := 403
-				if it.Out == "500" {
-					code = 500
-				}
+			case "403", "500", "403w", "404w":
+				code := map[string]int{"403": 403, "500": 500, "403w": -403, "404w": -404}[it.Out]
 				calBe.Fail[p] = code
 				cardBe.Fail[p] = code
 			}
